@@ -153,6 +153,8 @@ pub fn build(events: &[Event]) -> Model {
                     m.folds[i].adds_at_end = m.folds[i].instance.map(|id| m.instances[id].adds.len()).unwrap_or(0);
                 }
             }
+            // read by mon::taint, not part of the stream model
+            Event::FoldUnclaimedLore { .. } => {}
         }
     }
     m
